@@ -25,7 +25,12 @@ def impl_run(cfg_opts, arrivals):
     clock = [0]
     rl._timestamp = lambda: clock[0]
     obs = []
-    for t, addr, cmd in arrivals:
+    for arr in arrivals:
+        if len(arr) == 1:              # [t]: a client disconnects at time t -> RateLimiter.cleanup()
+            clock[0] = arr[0]
+            rl.cleanup()
+            continue
+        t, addr, cmd = arr
         clock[0] = t
         lim = bool(rl.is_limited(addr, [cmd, {}]))
         b = rl.recent_commands.get(ip_address(addr).packed)
@@ -65,7 +70,10 @@ def gen_arrivals(rng, n):
     out = []
     for _ in range(n):
         t += rng.choice([0, 0, 0, 1, 1, 1, 2, 5, 29, 30, 31, 59, 60, 61, 600, 3599, 3600, 3601])
-        out.append([t, rng.choice(ADDRS), rng.choice(CMDS)])
+        if rng.random() < 0.15:
+            out.append([t])            # cleanup (some client disconnected)
+        else:
+            out.append([t, rng.choice(ADDRS), rng.choice(CMDS)])
     return out
 
 
@@ -78,6 +86,9 @@ def corpus_cases():
         # n = 0 admits nothing
         ({"ip": {"EVENT": "0/s"}}, [[i // 2, "1.1.1.1", "EVENT"] for i in range(6)]),
         ({"global": {"EVENT": "2/s"}, "ip": {"EVENT": "1/s"}}, [[0, "1.1.1.1", "EVENT"], [0, "1.1.1.1", "EVENT"], [0, "2.2.2.2", "EVENT"]]),
+        # cleanup with an address-specific rule that is longer than every ip rule
+        ({"1.1.1.1": {"EVENT": "1/h"}, "ip": {"EVENT": "5/s"}}, [[0, "1.1.1.1", "EVENT"], [10], [20, "1.1.1.1", "EVENT"]]),
+        ({"ip": {"EVENT": "1/s,2/h"}}, [[0, "1.1.1.1", "EVENT"], [5, "1.1.1.1", "EVENT"], [10], [20, "1.1.1.1", "EVENT"]]),
     ]
 
 
@@ -91,6 +102,7 @@ def run_cases(suite, cases):
     verdicts = model_batch("c18.holds", [dict(mc, obs=io) for mc, io in zip(modelcases, impls)])
     for (opts, arr), mc, io, mo, vd in zip(cases, modelcases, impls, mouts, verdicts):
         refused = sum(1 for o in io if o[0])
+        suite.count("with_cleanup" if any(len(a) == 1 for a in arr) else "no_cleanup")
         suite.case({"opts": opts, "arrivals": arr[:12], "n_arrivals": len(arr)}, nontrivial=(0 < refused < len(io)))
         suite.count("len_%d" % min(len(arr), 20))
         suite.count("refused_some" if 0 < refused < len(io) else ("refused_all" if refused else "refused_none"))
@@ -161,7 +173,73 @@ def run(tier, seed):
         if io != m:
             s3.disagree(nme, m, io)
     suites.append(s3)
+    suites.append(suite_web(tier, seed))
     return suites
+
+
+def suite_web(tier, seed):
+    """web.start_client must put every well-formed message to the limiter exactly once, whatever the
+    connection's throttle state, and act on it only if it was let through"""
+    import json
+    from .. import env, relay
+    from nostr_relay.rate_limiter import RateLimiter
+    s = Suite("trace:limiter-web")
+    s.rule = ("sessions of 10-30 CLOSE / REQ / EVENT (valid and refused, which raises the connection throttle) messages through the real "
+              "web.start_client with the real RateLimiter on an injected clock; every well-formed message must reach is_limited exactly once and "
+              "the verdicts must satisfy the sliding-window statement; non-trivial = some message refused by the limiter")
+    rng = rng_for(seed, "c18web")
+    cases = []
+    for _ in range(6 if tier == "quick" else 40):
+        opts = {"ip": {"CLOSE": "%d/h" % rng.choice([2, 3]), "EVENT": "%d/min" % rng.choice([2, 4]), "REQ": "3/min"}}
+        calls = []
+        clock = [0]
+
+        def factory():
+            rl = RateLimiter(opts)
+            rl._timestamp = lambda: clock[0]
+            real = rl.is_limited
+
+            def is_limited(addr, message):
+                v = real(addr, message)
+                calls.append([clock[0], addr, message[0], bool(v)])
+                return v
+            rl.is_limited = is_limited
+            return rl
+
+        async def session():
+            d = relay.Driver("sql", sub_limit=3, max_limit=50, limiter_factory=factory)
+            await d.start()
+            await d.open(0)
+            sent = []
+            good = env.mk_event(0, 1, env.NOW - 5, [], "w")
+            for i in range(rng.randint(10, 30)):
+                clock[0] += rng.choice([0, 1, 5, 20])
+                k = rng.choice(["CLOSE", "CLOSE", "EVENT", "BADEVENT", "REQ"])
+                m = {"CLOSE": ["CLOSE", "x"], "EVENT": ["EVENT", good], "BADEVENT": ["EVENT", dict(good, sig="00" * 64)],
+                     "REQ": ["REQ", "q%d" % (i % 2), {"kinds": [1]}]}[k]
+                n0 = len(calls)
+                await d.msg(0, m)
+                sent.append((m[0], len(calls) - n0))
+                if d.conns[0].task.done():
+                    break
+            await d.finish()
+            return sent
+        sent = env.run(session())
+        cases.append((opts, list(calls), sent))
+    model_cases, impl_obs = [], []
+    for opts, calls, sent in cases:
+        bypass = [i for i, (cmd, n) in enumerate(sent) if n != 1]
+        arr = [[t, a, c] for t, a, c, _ in calls]
+        s.case({"opts": opts, "messages": [c for c, _ in sent]}, nontrivial=any(v for *_, v in calls))
+        if bypass:
+            s.violate("limiter-bypassed", {"opts": opts, "messages": sent},
+                      "a well-formed message was not put to the rate limiter exactly once (message index %d)" % bypass[0], observed=sent)
+        model_cases.append({"cfg": opts_to_cfg(opts), "arrivals": arr, "obs": [[v, 0, 0] for *_, v in calls]})
+    verdicts = model_batch("c18.holds", model_cases)
+    for (opts, calls, sent), vd in zip(cases, verdicts):
+        if vd not in ("ok", "deque-unbounded"):
+            s.violate(vd, {"opts": opts, "calls": calls}, "limiter verdicts seen by start_client deviate from the sliding-window statement: " + vd)
+    return s
 
 
 def replay(payload):
